@@ -141,8 +141,13 @@ package couchbase
 //@ requires s != nil
 //@ loop 1
 //@   invariant.spawned 0 <= rangeindex + 1 && rangeindex + 1 <= len(vbIds) && dcalls("go:couchbase.(*cbMetadata).Load$1") == rangeindex + 1
-//@   invariant.each forall j int :: 0 <= j && j <= rangeindex ==> darg("go:couchbase.(*cbMetadata).Load$1", j, vbID) == vbIds[j] && captured(darg("go:couchbase.(*cbMetadata).Load$1", j, 0), "couchbase.(*cbMetadata).Load$1", "s") == s && captured(darg("go:couchbase.(*cbMetadata).Load$1", j, 0), "couchbase.(*cbMetadata).Load$1", "bucketUUID") == bucketUUID
+//@   invariant.each forall j int :: 0 <= j && j <= rangeindex ==> darg("go:couchbase.(*cbMetadata).Load$1", j, vbID) == vbIds[j]
+//@   invariant.existing forall j int :: 0 <= j && j <= rangeindex ==> allocated(darg("go:couchbase.(*cbMetadata).Load$1", j, 0))
+//@   invariant.same_backend forall j int :: 0 <= j && j <= rangeindex ==> captured(darg("go:couchbase.(*cbMetadata).Load$1", j, 0), "couchbase.(*cbMetadata).Load$1", "s") == s
+//@   invariant.same_result_map forall j int :: 0 <= j && j <= rangeindex ==> captured(darg("go:couchbase.(*cbMetadata).Load$1", j, 0), "couchbase.(*cbMetadata).Load$1", "state") == state
 //@   modifies calls("go:couchbase.(*cbMetadata).Load$1")
-//@ ensures.every_vbucket_once[C02] dcalls("go:couchbase.(*cbMetadata).Load$1") == len(vbIds) && forall j int :: 0 <= j && j < len(vbIds) ==> darg("go:couchbase.(*cbMetadata).Load$1", j, vbID) == vbIds[j] && captured(darg("go:couchbase.(*cbMetadata).Load$1", j, 0), "couchbase.(*cbMetadata).Load$1", "s") == s && captured(darg("go:couchbase.(*cbMetadata).Load$1", j, 0), "couchbase.(*cbMetadata).Load$1", "bucketUUID") == bucketUUID && captured(darg("go:couchbase.(*cbMetadata).Load$1", j, 0), "couchbase.(*cbMetadata).Load$1", "state") == result0
+//@ ensures.every_vbucket_once[C02] dcalls("go:couchbase.(*cbMetadata).Load$1") == len(vbIds) && forall j int :: 0 <= j && j < len(vbIds) ==> darg("go:couchbase.(*cbMetadata).Load$1", j, vbID) == vbIds[j]
+//@ ensures.same_backend[C02] forall j int :: 0 <= j && j < len(vbIds) ==> captured(darg("go:couchbase.(*cbMetadata).Load$1", j, 0), "couchbase.(*cbMetadata).Load$1", "s") == s
+//@ ensures.result_is_what_the_readers_fill[C02] forall j int :: 0 <= j && j < len(vbIds) ==> captured(darg("go:couchbase.(*cbMetadata).Load$1", j, 0), "couchbase.(*cbMetadata).Load$1", "state") == result0
 //@ ensures.no_error[C02] result2 == nil && result0 != nil
 //@ modifies calls("go:couchbase.(*cbMetadata).Load$1")
